@@ -21,6 +21,14 @@ Entry(o) == IF Refused(o) THEN o.msg
 
 RefReply(outcomes) == [i \in 1..Len(outcomes) |-> Entry(outcomes[i])]
 
+(* WebSocket: one text frame carries the commands; the replies come back as frames, in the order  *)
+(* of the commands: every line a command pushed, then its own `ok' or `error <text>'            *)
+WsTerminal(o) == IF Refused(o) THEN "error " \o o.msg \o " \n" ELSE "ok \n"
+RECURSIVE WsFrom(_, _)
+WsFrom(outcomes, i) == IF i > Len(outcomes) THEN <<>>
+                       ELSE outcomes[i].lines \o <<WsTerminal(outcomes[i])>> \o WsFrom(outcomes, i + 1)
+WsReply(outcomes) == WsFrom(outcomes, 1)
+
 (* Implementation-shaped reply: one message queue per request; a refused command  *)
 (* reports its error text and discards whatever is queued (repaired code: before,  *)
 (* the pushed line stayed queued); a successful command pushes its lines and then   *)
